@@ -202,7 +202,7 @@ func c07Decorate(p *synth.Project, r interface {
 	for si := range p.Structs {
 		for fi := range p.Structs[si].Fields {
 			f := &p.Structs[si].Fields[fi]
-			if f.Embedded || f.Type.Base().K != "named" {
+			if k := f.Type.Base().K; f.Embedded || (k != "named" && k != "time" && k != "bytes") {
 				continue
 			}
 			switch r.Intn(4) {
@@ -234,7 +234,7 @@ func c07Strip(p *synth.Project, name string) (*synth.Project, map[string]bool) {
 	for si := range q.Structs {
 		for fi := range q.Structs[si].Fields {
 			f := &q.Structs[si].Fields[fi]
-			if f.Embedded || f.Type.Base().K != "named" {
+			if k := f.Type.Base().K; f.Embedded || (k != "named" && k != "time" && k != "bytes") {
 				continue
 			}
 			if f.Deprecated || f.Descr != "" || f.Validate != "" {
